@@ -82,7 +82,7 @@ class StreamBuffer:
         length = min(len(self.buffer), max_length)
         data = bytes(self.buffer[:length])
         del self.buffer[:length]
-        if len(data) < BUFFER_LOW_WATER:
+        if len(data) < BUFFER_LOW_WATER and len(self.buffer) < BUFFER_HIGH_WATER:
             await self._paused.set()
         if len(self.buffer) == 0:
             await self._is_empty.set()
